@@ -165,3 +165,71 @@ func H_C06_tabs(form, _ int) {
 	check(vsame(normHTML(got), normHTML(want)), "C06.tab-columns")
 	vdigest(got)
 }
+
+// H_C06_loose(first, _): tight / loose decision for a two-item bullet list whose first
+// item starts with a block other than a paragraph (first 0: indented code, 1: fenced
+// code, 2: ATX heading, 3: block quote, 4: a paragraph for reference). The solver
+// chooses whether a blank line separates the items and whether the first item holds a
+// second block after a blank line; the list is loose exactly when one of the two is
+// the case, and then every paragraph of the list's items is wrapped in <p>.
+func H_C06_loose(first, _ int) {
+	sep := nondetBool()
+	second := nondetBool()
+	w := nondetByte()
+	assume(isL(w))
+	var doc, item []byte
+	switch first {
+	case 0:
+		doc = append(doc, "-     c\n"...)
+		item = append(item, "<pre><code>c\n</code></pre>"...)
+	case 1:
+		doc = append(doc, "- ```\n  c\n  ```\n"...)
+		item = append(item, "<pre><code>c\n</code></pre>"...)
+	case 2:
+		doc = append(doc, "- # h\n"...)
+		item = append(item, "<h1>h</h1>"...)
+	case 3:
+		doc = append(doc, "- > q\n"...)
+		item = append(item, "<blockquote><p>q</p></blockquote>"...)
+	default:
+		doc = append(doc, "- p\n"...)
+	}
+	loose := sep || second
+	if first == 4 {
+		if loose {
+			item = append(item, "<p>p</p>"...)
+		} else {
+			item = append(item, 'p')
+		}
+	}
+	if second {
+		doc = append(doc, "\n  s\n"...)
+		item = append(item, "<p>s</p>"...)
+	}
+	if sep {
+		doc = append(doc, '\n')
+	}
+	doc = append(doc, "- "...)
+	doc = append(doc, w, '\n')
+	var want []byte
+	want = append(want, "<ul><li>"...)
+	want = append(want, item...)
+	want = append(want, "</li><li>"...)
+	if loose {
+		want = append(want, "<p>"...)
+		want = append(want, w)
+		want = append(want, "</p>"...)
+	} else {
+		want = append(want, w)
+	}
+	want = append(want, "</li></ul>"...)
+	blocks, refs := Parse(cloneBytes(doc))
+	got := renderWith(&HTMLRenderer{ReferenceMap: refs}, blocks)
+	if !vsame(normHTML(got), normHTML(want)) {
+		vnote("doc=" + string(doc))
+		vnote("got=" + string(normHTML(got)))
+		vnote("want=" + string(normHTML(want)))
+	}
+	check(vsame(normHTML(got), normHTML(want)), "C06.loose-tight")
+	vdigest(got)
+}
